@@ -326,11 +326,18 @@ fn run_inner(req: &str) -> String {
                     Err(_) => return "bad-request".into(),
                 }
             }
+            // /Predictor is honoured for FlateDecode and LZWDecode only: the bytes reach the
+            // predictor through a zlib stream
             let mut dict = PdfDictionary::new();
-            dict.insert("Filter".into(), name("ASCIIHexDecode"));
+            dict.insert("Filter".into(), name("FlateDecode"));
             dict.insert("DecodeParms".into(), PdfObject::Dictionary(parms));
-            let enc: String = data.iter().map(|b| format!("{:02x}", b)).collect();
-            match (PdfStream { dict, data: enc.into_bytes() }).decode(&ParseOptions::default()) {
+            let enc = {
+                use std::io::Write;
+                let mut e = flate2::write::ZlibEncoder::new(Vec::new(), flate2::Compression::fast());
+                e.write_all(&data).expect("zlib");
+                e.finish().expect("zlib")
+            };
+            match (PdfStream { dict, data: enc }).decode(&ParseOptions::default()) {
                 Ok(v) => format!("ok:{}", hex(&v)),
                 Err(_) => "err".into(),
             }
@@ -1493,6 +1500,11 @@ fn main() {
     }
     let mut rng = Rng::new(seed);
     cases.extend(gen(&mut rng, tier));
+    // A panic raised inside std is attributed to the innermost crate frame by symbolising a
+    // backtrace in the worker; the first symbolisation after a build reads the whole debug info
+    // from disk, which on a loaded machine can outlast a request's budget.  Do it once here so
+    // that the workers find it in the page cache.
+    let _ = std::backtrace::Backtrace::force_capture().to_string();
     let clean = |s: &str| s.replace(['\t', '\n', '\r'], " ");
     let reqs: Vec<String> = cases.iter().map(|c| clean(&c.req)).collect();
     let nthreads: usize = std::env::var("C01_THREADS").ok().and_then(|s| s.parse().ok()).unwrap_or(8).max(1);
